@@ -744,6 +744,62 @@ pub fn run(tier: Tier) -> i32 {
             let _ = std::env::set_current_dir(od);
         }
     }
+    // "the path as written" is a relative one: it is found from the current directory, wherever
+    // the main file lies and however it was given (with a directory part, absolute, through ..),
+    // at the top level and from inside an included file
+    {
+        let old = std::env::current_dir().ok();
+        // (name, current directory, main file as given (ABS = absolute), nested)
+        let cases: Vec<(&str, &str, &str, bool)> = vec![
+            ("as-written-from-cwd/main-with-a-directory-part", "proj", "src/main.asm", false),
+            ("as-written-from-cwd/main-with-a-directory-part/nested", "proj", "src/main.asm", true),
+            ("as-written-from-cwd/main-two-directories-down", "", "proj/src/main.asm", false),
+            ("as-written-from-cwd/main-absolute", "proj", "ABS", false),
+            ("as-written-from-cwd/main-absolute/nested", "proj", "ABS", true),
+            ("as-written-from-cwd/main-through-dot-dot", "proj/inc", "../src/main.asm", true),
+            ("as-written-from-cwd/main-dotted", "proj", "./src/main.asm", true),
+        ];
+        for (ci, (name, cwd, main_given, nested)) in cases.iter().enumerate() {
+            let root = scratch.path.join(format!("aswritten{}", ci));
+            let mut files: BTreeMap<String, String> = BTreeMap::new();
+            // the include names are relative to the current directory `cwd`
+            let rel = |target: &str| -> String {
+                match *cwd {
+                    "proj" => target.to_string(),
+                    "" => format!("proj/{}", target),
+                    _ => format!("../{}", target),
+                }
+            };
+            let main_text = format!("ldi r16, 1\n.include \"{}\"\nldi r17, ASW_K\n", rel("lib/defs.inc"));
+            let defs_text = if *nested { format!(".equ ASW_K = 0x2a\n.include \"{}\"\n", rel("lib/deep/more.inc")) } else { ".equ ASW_K = 0x2a\n".to_string() };
+            write_file(&root.join("proj/src/main.asm"), &main_text, &mut files, &root);
+            write_file(&root.join("proj/lib/defs.inc"), &defs_text, &mut files, &root);
+            write_file(&root.join("proj/lib/deep/more.inc"), "ldi r18, ASW_K + 1\n", &mut files, &root);
+            let _ = std::fs::create_dir_all(root.join("proj/inc"));
+            if std::env::set_current_dir(root.join(cwd)).is_err() {
+                continue;
+            }
+            let given = if *main_given == "ABS" { root.join("proj/src/main.asm") } else { PathBuf::from(main_given) };
+            let o = sut::build_file(given, BTreeSet::new());
+            if let Some(od) = &old {
+                let _ = std::env::set_current_dir(od);
+            }
+            evals.fetch_add(1, Ordering::Relaxed);
+            n_special += 1;
+            let pasted = format!("ldi r16, 1\n.equ ASW_K = 0x2a\n{}ldi r17, ASW_K\n", if *nested { "ldi r18, ASW_K + 1\n" } else { "" });
+            let want = sut::build_str(&pasted);
+            let same = matches!((&o, &want), (Outcome::Ok(a), Outcome::Ok(b)) if a.code == b.code);
+            if !same {
+                rep.violation(&format!("C11/rejected/tree={}", name), || format!("current directory {}, main file given as `{}`, includes named relative to the current directory (`{}`): {}", if cwd.is_empty() { "." } else { cwd }, main_given, rel("lib/defs.inc"), o.brief()), || {
+                    json!({"kind": "file_tree", "files": files, "main": if *main_given == "ABS" { "proj/src/main.asm" } else { main_given }, "current_directory": cwd, "caller_paths": [], "pasted_program": pasted, "observed": o.to_json()})
+                });
+            }
+            let _ = std::fs::remove_dir_all(&root);
+        }
+        if let Some(od) = &old {
+            let _ = std::env::set_current_dir(od);
+        }
+    }
     let distinct = outcomes.lock().unwrap().len();
     rep.guard(items.len() > 2000, "fewer than 2000 configurations");
     rep.guard(loc_use.lock().unwrap().len() == 8, "not every location kind was used");
